@@ -45,18 +45,18 @@ def pairs : List Int → Option (List (Int × Int))
 def ringIO (name : String) (p : Int) : Option RingIO :=
   match name with
   | "mi8" | "mu8" | "mi16" | "mu16" | "mi32" | "mu32" | "mi64" | "mu64" | "mf" | "md" | "mI" | "g32" | "l16" | "mr7" =>
-    some ⟨.gmp, false, p, 0⟩
-  | "gr7" => some ⟨.gmp, false, p, 128⟩
-  | "bi32" => some ⟨.sint 32, true, p, 0⟩
-  | "bi64" => some ⟨.sint 64, true, p, 0⟩
-  | "bf" => some ⟨.flt 24, true, p, 0⟩
-  | "bd" => some ⟨.flt 53, true, p, 0⟩
-  | "ed" => some ⟨.sint 64, false, p, 53⟩
-  | "gfq" => some ⟨.sint 32, false, p, 0⟩
-  | "gfq2" => some ⟨.sint 32, false, p * p, 0⟩
-  | "gfq3" => some ⟨.sint 32, false, p * p * p, 0⟩
-  | "ef" => some ⟨.sint 64, false, p, 24⟩
-  | "zz" => some ⟨.gmp, false, 0, 0⟩
+    some ⟨.gmp, false, p, 0, 0⟩
+  | "gr7" => some ⟨.gmp, false, p, 128, 0⟩
+  | "bi32" => some ⟨.sint 32, true, p, 0, 0⟩
+  | "bi64" => some ⟨.sint 64, true, p, 0, 0⟩
+  | "bf" => some ⟨.flt 24, true, p, 0, 0⟩
+  | "bd" => some ⟨.flt 53, true, p, 0, 0⟩
+  | "ed" => some ⟨.sint 64, false, p, 53, 0⟩
+  | "gfq" => some ⟨.sint 32, false, p, 0, 0⟩
+  | "gfq2" => some ⟨.sint 32, false, p * p, 0, 0⟩
+  | "gfq3" => some ⟨.sint 32, false, p * p * p, 0, 0⟩
+  | "ef" => some ⟨.sint 64, false, p, 24, 0⟩
+  | "zz" => some ⟨.gmp, false, 0, 0, 0⟩
   | _ => none
 
 /-- `none` inside = outside the modelled fragment of floating-point input: the line is not judged -/
@@ -71,7 +71,7 @@ def elemEntry (R : RingIO) (rep : Int) (rest : List Char) : Entry :=
       | [_, v, f, _, rem] => v == hexInt rep && f == "0" && rem == encText rest
       | _ => false)
 
-def textEntry (pinned : Bool) (key : String) (args : List String) : Option Entry :=
+def textEntry (pinned : Bool) (u : Int) (key : String) (args : List String) : Option Entry :=
   match key, args with
   | "irt", [n, rest] => do
     let n ← parseHexInt n
@@ -167,26 +167,78 @@ def textEntry (pinned : Bool) (key : String) (args : List String) : Option Entry
     let p ← parseHexInt p
     let rep ← parseHexInt rep
     let rest ← decText rest
-    let R ← ringIO ring p
+    let R0 ← ringIO ring p
+    let R : RingIO := { R0 with uninit := u }
     some (elemEntry R rep rest)
   | "eread", [ring, p, t] => do
     let p ← parseHexInt p
     let t ← decText t
-    let R ← ringIO ring p
+    let R0 ← ringIO ring p
+    let R : RingIO := { R0 with uninit := u }
     match elemRead R (IStream.ofList t) with
     | none => some (false, some ["UNMODELLED"], fun _ => true)
     | some r => some (false, some (hexInt r.1 :: tailToks r.2), fun _ => true)
   | "zrt", [n, rest] => do
     let n ← parseHexInt n
     let rest ← decText rest
-    some (elemEntry ⟨.gmp, false, 0, 0⟩ n rest)
+    some (elemEntry ⟨.gmp, false, 0, 0, 0⟩ n rest)
+  | "pw", ring :: p :: x :: cs => do
+    -- write half: the text must be the model's and must denote (reference parser) the normalised polynomial
+    let p ← parseHexInt p
+    let x ← decText x
+    let cs ← parseAll cs
+    let _ ← ringIO ring p
+    let text := polyWrite x cs
+    some (nameOk x, some [encText text], fun res =>
+      match res with
+      | [t] => (decText t).bind (parsePoly x) == some (polyNorm cs)
+      | _ => false)
+  | "prw", [ring, p, x, input] => do
+    -- the library's read on `input`, then write of the stored (possibly un-normalised) result
+    let p ← parseHexInt p
+    let x ← decText x
+    let input ← decText input
+    let R0 ← ringIO ring p
+    let R : RingIO := { R0 with uninit := u }
+    match polyRead R (IStream.ofList input) with
+    | none => some (false, some ["UNMODELLED"], fun _ => true)
+    | some r =>
+      let text := polyWrite x r.1
+      some (nameOk x, some (tailToks r.2 ++ [hexInt r.1.length] ++ r.1.map hexInt ++ [encText text]), fun res =>
+        -- specification of the write half on what the implementation says it stored
+        match res with
+        | _ :: _ :: _ :: _ :: rest =>
+          match rest.reverse with
+          | t :: qrev => (qrev.reverse.mapM parseHexInt).map polyNorm == (decText t).bind (parsePoly x)
+                         && ((decText t).bind (parsePoly x)).isSome
+          | [] => false
+        | _ => false)
+  | "ustr", [k, v] => do
+    let k ← parseHexInt k
+    let v ← parseHexInt v
+    let K := k.toNat
+    let text := ruintShow K v.toNat
+    some (true, (ruintOfString K text).map (fun b => [encText text, hexInt b]), fun res =>
+      match res with
+      | [_, w] => w == hexInt v
+      | _ => false)
+  | "sstr", [k, v] => do
+    let k ← parseHexInt k
+    let v ← parseHexInt v
+    let K := k.toNat
+    let text := rintShow K v
+    some (true, (rintOfString K text).map (fun b => [encText text, hexInt b]), fun res =>
+      match res with
+      | [t, w] => t == encText text && w == hexInt v
+      | _ => false)
   | "prt", ring :: p :: x :: cs => do
     let p ← parseHexInt p
     let x ← decText x
     let cs ← parseAll cs
-    let R ← ringIO ring p
+    let R0 ← ringIO ring p
+    let R : RingIO := { R0 with uninit := u }
     let P := polyNorm cs
-    let text := polyShow x P
+    let text := polyWrite x cs
     match polyRead R (IStream.ofList text) with
     | none => some (false, some ["UNMODELLED"], fun _ => true)
     | some r =>
@@ -196,14 +248,19 @@ def textEntry (pinned : Bool) (key : String) (args : List String) : Option Entry
         | _ => false)
   | _, _ => none
 
+/-- keys whose model may reach an uninitialised local of the library (native element readers, `long deg`) -/
+def usesUninit (key : String) : Bool := key == "ert" || key == "eread" || key == "prt" || key == "prw"
+
 /-- per line: `OK` | `DIFF kind=SPEC|BOTH|MODEL model=… | line` | `BAD … | line` -/
 def textLineGen (pinned : Bool) (line : String) : String :=
   match splitLine line with
   | none => "BAD empty"
   | some (key, args, res) =>
-    match textEntry pinned key args with
+    match textEntry pinned 0 key args with
     | none => "BAD entry | " ++ line.trimAscii.toString
     | some (pre, model, chk) =>
+      -- outcome depends on the content of an uninitialised local of the library: not judged
+      if usesUninit key && (textEntry pinned 1 key args).map (·.2.1) != some model then "PRE" else
       if model == some ["UNMODELLED"] then "PRE" else
       let modelToks := model.getD ["EXC"]
       let modelOk := modelToks == res
